@@ -80,7 +80,7 @@ B_DT = {0: (-9999, 9999), 1: (1, 12), 2: (1, 31), 3: (0, 23), 4: (0, 59), 5: (0,
 KERNELS = [
     K("c02::k_its_to_dt", pre=lambda a: And(valid_ts(a[0], a[1]), off_ok(a[2])),
       claims=[("ITimestamp::to_datetime == Gregorian decomposition of floor-divided (t + o), all fields in range", decomposition)],
-      bounds=B_TS, split=(0, 64), tier="thorough", timeout=600,
+      bounds=B_TS, split=(0, 64), tier="deep", timeout=600,
       note="the same code is exercised through the public Offset::to_datetime kernel in the quick tier"),
     K("c02::k_idt_to_ts", pre=lambda a: And(valid_dt(a), off_ok(a[7])),
       claims=[("IDateTime::to_timestamp == exact instant, in normal (same-sign) form",
@@ -89,7 +89,7 @@ KERNELS = [
     K("c02::k_its_roundtrip", pre=lambda a: And(valid_ts(a[0], a[1]), off_ok(a[2])),
       claims=[("to_timestamp(to_datetime(t, o), o) == t exactly (same representation)",
                lambda a, o: And(o[0].i == a[0], o[1].i == a[1]))],
-      bounds=B_TS, split=(0, 256), tier="thorough", timeout=600,
+      bounds=B_TS, split=(0, 256), tier="deep", timeout=600,
       note="implied by the two one-way lemmas plus uniqueness of the normal form; checked directly only in the thorough tier"),
     K("c02::k_idt_to_ts_checked", pre=lambda a: And(valid_dt(a), off_ok(a[7])),
       claims=[("to_timestamp_checked is Some exactly when the instant is within [Timestamp::MIN, Timestamp::MAX]",
@@ -135,5 +135,5 @@ KERNELS = [
     K("c02::k_off_roundtrip", pre=lambda a: And(valid_ts(a[0], a[1]), off_ok(a[2])),
       claims=[("Offset::to_timestamp(Offset::to_datetime(t)) == t (Ok, equal fields, == holds)",
                lambda a, o: And(o.is_some, o.some.is_some, o.some.some[0][0].i == a[0], o.some.some[0][1].i == a[1], o.some.some[1].b))],
-      bounds=B_TS, split=(0, 256), tier="thorough", timeout=600),
+      bounds=B_TS, split=(0, 256), tier="deep", timeout=600),
 ]
